@@ -364,7 +364,8 @@ fn gen_port(rng: &mut Rng) -> u32 {
     if rng.chance(1, 3) { *rng.pick(&B) } else { rng.below(65536) as u32 }
 }
 
-const WORDS: [&str; 14] = [
+const WORDS: [&str; 16] = [
+    " padded ", "UPPER lower",
     "lobby", "survival", "ロビー", "сервер", "spiel-ü", "🎮", "a b", "x=y,z", "{\"k\":1}", "tab\there", "nul\0in", "CamelCase", "lobby-01.eu-central", "\u{200b}zw",
 ];
 
